@@ -27,3 +27,20 @@ def instrument(ctx):
     if rc != 0:
         return None, "tools/instrument failed on %s (rc=%d): %s" % (src, rc, log[-2000:])
     return out, None
+
+
+class instrumented_overlay:
+    """core.Ctx.overlay applies VERIF_REPLACE after the stage's own replacements; for the stages that run the
+    instrumented copy (which was generated FROM the VERIF_REPLACE'd unix_volume.go) the instrumented file must
+    win, so the unix_volume.go entry is hidden from the environment while the stage runs."""
+
+    def __enter__(self):
+        self.old = os.environ.get("VERIF_REPLACE")
+        if self.old is not None:
+            keep = [kv for kv in self.old.split(",") if kv and kv.split("=", 1)[0] != UV]
+            os.environ["VERIF_REPLACE"] = ",".join(keep)
+        return self
+
+    def __exit__(self, *a):
+        if self.old is not None:
+            os.environ["VERIF_REPLACE"] = self.old
